@@ -508,6 +508,7 @@ const (
 	aMapLen
 	aRecover
 	aDeepRead
+	aAtomicSel
 	aSkip
 )
 
@@ -543,6 +544,7 @@ func (r *rewriter) pos(n ast.Node) string { return fset.Position(n.Pos()).String
 
 func (r *rewriter) rewrite(f *ast.File) *ast.File {
 	acts := map[ast.Node]action{}
+	atomicSel := map[ast.Node]string{}
 	labeled := map[ast.Stmt]bool{}
 	r.pre = map[ast.Stmt][]ast.Stmt{}
 	if pkgRace {
@@ -642,14 +644,33 @@ func (r *rewriter) rewrite(f *ast.File) *ast.File {
 			if id, ok := x.X.(*ast.Ident); ok {
 				if pn, ok := r.info.Uses[id].(*types.PkgName); ok && pn.Imported().Path() == "sync" {
 					switch x.Sel.Name {
-					case "Mutex", "WaitGroup":
+					case "Mutex", "WaitGroup", "Once", "RWMutex":
 						acts[x] = aSyncType
 					default:
 						fail("%s: sync.%s is not supported by the shim", r.pos(x), x.Sel.Name)
 					}
 				}
 				if pn, ok := r.info.Uses[id].(*types.PkgName); ok && pn.Imported().Path() == "sync/atomic" {
-					fail("%s: sync/atomic is not supported by the shim", r.pos(x))
+					n := x.Sel.Name
+					to := ""
+					switch {
+					case strings.HasPrefix(n, "CompareAndSwap"):
+						to = "AtomicCAS"
+					case strings.HasPrefix(n, "Add"):
+						to = "AtomicAdd"
+					case strings.HasPrefix(n, "Load"):
+						to = "AtomicLoad"
+					case strings.HasPrefix(n, "Store"):
+						to = "AtomicStore"
+					case strings.HasPrefix(n, "Swap"):
+						to = "AtomicSwap"
+					case n == "Int32" || n == "Int64" || n == "Uint32" || n == "Uint64" || n == "Uintptr" || n == "Bool" || n == "Value" || n == "Pointer":
+						to = "Atomic" + n
+					default:
+						fail("%s: sync/atomic.%s is not supported by the shim", r.pos(x), n)
+					}
+					acts[x] = aAtomicSel
+					atomicSel[x] = to
 				}
 			}
 		}
@@ -678,6 +699,9 @@ func (r *rewriter) rewrite(f *ast.File) *ast.File {
 		case *ast.SelectorExpr:
 			if acts[x] == aSyncType {
 				c.Replace(vsel(x.Sel.Name))
+			}
+			if acts[x] == aAtomicSel {
+				c.Replace(vsel(atomicSel[x]))
 			}
 		case *ast.UnaryExpr:
 			switch acts[x] {
